@@ -118,12 +118,16 @@ theorem C14_decodes_to_sent (reg : List MsgDef) (ver : Str) (d : MsgDef) (se : S
   subst hbf
   -- the first `35=` is the MsgType field
   have hmt : getMsgType bs = .ok d.type := by
-    have e : bs = ([56, 61] ++ ver ++ 1 :: ([57, 61] ++ natDigits (counted d.type body).length ++ [1])) ++ [51, 53, 61] ++
+    have e : bs = ([56, 61] ++ ver ++ 1 :: ([57, 61] ++ natDigits (counted d.type body).length)) ++ [1] ++ [51, 53, 61] ++
         (d.type ++ 1 :: (body ++ ([49, 48, 61] ++ rjust0 (natDigits (byteSum (summed ver d.type body) % 256)) 3 ++ [1]))) := by
       rw [hf]; simp [summed, counted]
     rw [e]
-    exact getMsgType_at _ _ _ (noAdj_head ver (by
-      intro hm; simp only [wfVer, List.all_eq_true, decide_eq_true_eq] at hv; exact hv 61 hm rfl) _) (wfText_iff hty).2 hta
+    refine getMsgType_at _ _ _ ?_ (wfText_iff hty).2 hta
+    have hn := noAdj_head ver (by
+      intro hm; simp only [wfVer, List.all_eq_true, decide_eq_true_eq] at hv; exact hv 61 hm rfl) (counted d.type body).length
+    have e2 : ([56, 61] ++ ver ++ 1 :: ([57, 61] ++ natDigits (counted d.type body).length)) ++ [1]
+        = [56, 61] ++ ver ++ 1 :: ([57, 61] ++ natDigits (counted d.type body).length ++ [1]) := by simp
+    rw [e2]; exact hn
   rw [C13.C13_roundtrip reg d _ bs hd hwf henc hmt hreg, canonMsg_framed he]
 
 /-! ### non-vacuity: a session dictionary, a message with a repeating group, the frame it is sent as -/
